@@ -283,6 +283,16 @@ impl InjectorPP {
     }
 }
 
+impl Drop for InjectorPP {
+    fn drop(&mut self) {
+        // Restore in reverse order of installation. When the same function was faked more than
+        // once, the guard created first holds the original bytes and must be the last to write.
+        while let Some(guard) = self.guards.pop() {
+            drop(guard);
+        }
+    }
+}
+
 impl Default for InjectorPP {
     fn default() -> Self {
         Self::new()
